@@ -205,7 +205,7 @@ class NamesModule:
         return lines, desc
 
     # ---- structs ------------------------------------------------------------
-    def make_struct(self, name, path, depth, default_case, avail_enums, avail_structs, indent=""):
+    def make_struct(self, name, path, depth, default_case, avail_enums, avail_structs, indent="", want_params=False):
         """avail_enums: [(emboss reference text, enum desc, cpp path)], avail_structs: [(ref text, struct desc)]
         Returns (lines, struct description)."""
         r = self.r
@@ -248,8 +248,8 @@ class NamesModule:
                         my_structs.append((sn, sd))
         # parameters
         params = []
-        if depth > 0 or r.random() < 0.3:
-            if r.random() < 0.35:
+        if want_params or depth > 0 or r.random() < 0.4:
+            if want_params or r.random() < (0.35 if depth > 0 else 0.6):
                 for _ in range(r.choice([1, 1, 2])):
                     pn = self.snake(used)
                     if self.bad("parameter-named-backing", 0.01):
@@ -420,14 +420,89 @@ class NamesModule:
                 fields.append(dict(name=fn, kind="physical", requires=False))
                 drv_fields.append(dict(name=fn, cls="struct"))
                 off += sd["size"]
+        # parameterised sub-structures at dynamic offsets / with dynamic sizes, arguments taken from fields
+        dynamic = False
+        small = [n for n, b in int_fields if b == 8]
+        while param_structs and len(small) < 2 and r.random() < 0.8:
+            extra = self.snake(used)
+            body.append("%s  %d [+1]  UInt  %s" % (indent, off, extra))
+            fields.append(dict(name=extra, kind="physical", requires=False))
+            drv_fields.append(dict(name=extra, cls="uint"))
+            int_fields.append((extra, 8))
+            small = small + [extra]
+            off += 1
+        if param_structs and small and r.random() < 0.75:
+            for _ in range(r.choice([1, 1, 2, 3])):
+                ref, sd = r.choice(param_structs)
+                args, ok, field_valued = [], True, False
+                for p in sd["params"]:
+                    if p["enum"] is None:
+                        k = r.random()
+                        if k < 0.55:
+                            args.append(r.choice(small))
+                            field_valued = True
+                        elif k < 0.8:
+                            args.append("%s %s %d" % (r.choice(small), r.choice("+*"), r.randint(1, 3)))
+                            field_valued = True
+                        else:
+                            args.append(str(r.randint(0, 7)))
+                    else:
+                        want = p["enum"]
+                        cands = [fnm for fnm, ed in enum_fields if ed is want]
+                        eref = [x for x in my_enums if x[1] is want]
+                        if cands and r.random() < 0.7:
+                            args.append(cands[0])
+                            field_valued = True
+                        elif eref:
+                            args.append("%s.%s" % (eref[0][0], want["values"][0][0]))
+                        else:
+                            ok = False
+                            break
+                if not ok:
+                    continue
+                fn = self.snake(used)
+                # the location prefers a field that is not an argument (distinct temporaries in the generated code)
+                free = [n for n in small if not any(n == x or x.startswith(n + " ") for x in args)]
+                a = r.choice(free) if free and r.random() < 0.8 else r.choice(small)
+                shape = r.choice(["start", "start", "start-expr", "next", "size"])
+                if self.bad("array-of-parameterised-structs", 0.25):
+                    shape = r.choice(["array-dynamic", "array-static-after-dynamic"])
+                if shape == "next" and not dynamic:
+                    shape = "start"
+                sz = sd["size"]
+                cls = "struct"
+                if shape == "start":
+                    loc = "%s [+%d]" % (a, sz)
+                elif shape == "start-expr":
+                    loc = "%s + %d [+%d]" % (a, r.randint(1, 4), sz)
+                elif shape == "next":
+                    loc = "$next [+%d]" % sz
+                elif shape == "size":
+                    loc = "%d [+%s]" % (off, a)
+                elif shape == "array-dynamic":
+                    loc = "%d [+%s * %d]" % (off, a, sz)
+                    cls = "sarray"
+                else:
+                    loc = "%s [+%d]" % (a, sz * 2)
+                    cls = "sarray"
+                tyx = "%s(%s)%s" % (ref, ", ".join(args), "[]" if shape == "array-dynamic" else "[2]" if cls == "sarray" else "")
+                body.append("%s  %s  %s  %s" % (indent, loc, tyx, fn))
+                fields.append(dict(name=fn, kind="physical", requires=False))
+                drv_fields.append(dict(name=fn, cls=cls))
+                dynamic = True
+                self.features.add("param-struct-dynamic-location")
+                if field_valued and a in free and shape != "next":
+                    self.features.add("param-struct-field-argument-dynamic-location")
         # virtual fields
         virt = []
         if int_fields:
+            narrow = [n for n, b in int_fields if b <= 32]
             for _ in range(r.choice([0, 1, 1, 2, 3])):
                 vn = self.snake(used)
                 a = r.choice(int_fields)[0]
                 k = r.random()
-                if k < 0.5:
+                if k < 0.5 and narrow:
+                    a = r.choice(narrow)
                     body.append("%s  let %s = %s %s %d" % (indent, vn, a, r.choice("+-*"), r.randint(1, 9)))
                     kind, cls = "virtual", "vint"
                     virt.append(vn)
@@ -447,8 +522,9 @@ class NamesModule:
             if self.bad("virtual-view-name-collision", 0.03):
                 a = r.choice(int_fields)[0]
                 base = r.choice(["foo", "ab", "x1", "val"])
+                a = r.choice(narrow) if narrow else a
                 n1, n2 = base + "_bar", base + "__bar"
-                if n1 not in used and n2 not in used and self.ok_name(n1):
+                if narrow and n1 not in used and n2 not in used and self.ok_name(n1):
                     used.update([n1, n2])
                     body.append("%s  let %s = %s + 1" % (indent, n1, a))
                     body.append("%s  let %s = %s + 2" % (indent, n2, a))
@@ -490,7 +566,8 @@ class NamesModule:
         if int_fields and r.random() < 0.15:
             struct_req = ["%s  [requires: %s < %d]" % (indent, int_fields[0][0], 2**int_fields[0][1] - 1)]
         lines = [head] + attr_lines + struct_req + sub_lines + body
-        desc = dict(name=name, cpp=path + [name], params=params, size=off, fields=drv_fields, nested=bool(nested_structs or nested_enums))
+        desc = dict(name=name, cpp=path + [name], params=params, size=off, fields=drv_fields, nested=bool(nested_structs or nested_enums),
+                    dynamic=dynamic)
         self.structs.append(desc)
         self.scopes.append(dict(kind="class", where=".".join(path + [name]), name=name, units="bytes", fields=fields,
                                 params=[p["name"] for p in params], enums=nested_enums))
@@ -521,21 +598,14 @@ class NamesModule:
         if r.random() < 0.3:
             mdc = r.choice(["kCamelCase", "SHOUTY_CASE, kCamelCase", "SHOUTY_CASE"])
             L.append('[(cpp) $default enum_case: "%s"]' % mdc)
-        imp_types = []
-        if r.random() < 0.25:
-            L.insert(0, 'import "imp.emb" as imp')
-            L.insert(1, "")
-            self.files["imp.emb"] = ('[$default byte_order: "LittleEndian"]\n[(cpp) namespace: "imp::ns"]\n'
-                                     "enum Shared:\n  SH_ONE = 1\n  SH_TWO = 2\n"
-                                     "struct Piece:\n  0 [+2]  UInt  word\n  2 [+1]  Shared  sh\n")
-            self.features.add("import")
         L.append("")
         top_enums, top_structs = [], []
         avail_enums, avail_structs = [], []
-        if "imp.emb" in self.files:
-            sh = dict(name="Shared", values=[("SH_ONE", 1, None), ("SH_TWO", 2, None)], cpp=None)
-            avail_enums.append(("imp.Shared", sh))
-            avail_structs.append(("imp.Piece", dict(name="Piece", size=3, params=[], cpp=None)))
+        imports = self.make_imports()
+        if imports:
+            L[0:0] = ['import "%s" as %s' % (path, alias) for path, alias in imports["import_lines"]] + [""]
+            avail_enums += imports["enums"]
+            avail_structs += imports["structs"]
         for _ in range(r.choice([0, 1, 1, 2])):
             en = self.camel()
             el, ed = self.make_enum(en, mdc, "", big=(r.random() < 0.12))
@@ -544,12 +614,13 @@ class NamesModule:
             top_enums.append(en)
             avail_enums.append((en, ed))
             L += el + [""]
-        n_structs = r.choice([1, 2, 2, 3])
+        n_structs = r.choice([1, 2, 2, 3, 3])
         for i in range(n_structs):
             sn = self.camel()
-            sl, sd = self.make_struct(sn, [], 0, mdc, avail_enums, avail_structs)
+            sl, sd = self.make_struct(sn, [], 0, mdc, avail_enums, avail_structs,
+                                      want_params=(i == 0 and n_structs > 1 and r.random() < 0.6))
             top_structs.append(sn)
-            if not sd["params"]:
+            if not sd["params"] and not sd.get("dynamic"):
                 avail_structs.append((sn, sd))
             L += sl + [""]
         if top_structs and self.bad("type-named-like-generated", 0.03):
@@ -569,17 +640,103 @@ class NamesModule:
             self.scopes.append(dict(kind="class", where="EnumTraits", name="EnumTraits", units="bytes",
                                     fields=[dict(name="et_field", kind="physical", requires=False)], params=[], enums=[]))
         self.scopes.append(dict(kind="ns", where="<module>", validated=[], structs=top_structs, enums=top_enums))
-        self.files["m.emb"] = "\n".join(L) + "\n"
-        # keep "m.emb" first
-        self.files = {"m.emb": self.files["m.emb"], **{k: v for k, v in self.files.items() if k != "m.emb"}}
+        main = self.main
+        self.files[main] = "\n".join(L) + "\n"
+        # the main file first, then the imported files in dependency order (importer before imported)
+        self.files = {main: self.files[main], **{k: v for k, v in self.files.items() if k != main}}
+
+    # ---- imported files ---------------------------------------------------------
+    LAYOUTS = [
+        # (feature, main path, [(path, [indexes of the files it imports], imported by main?)])
+        ("import", "m.emb", [("imp.emb", [], True)]),
+        ("import-same-base-name", "m.emb", [("sensors/common.emb", [], True), ("motors/common.emb", [], True)]),
+        ("import-same-base-name", "common.emb", [("sensors/common.emb", [], True)]),
+        ("import-same-base-name", "app/main.emb", [("lib/main.emb", [1], True), ("lib/util/main.emb", [], False)]),
+        ("import-chain", "m.emb", [("lib/b.emb", [1], True), ("lib/sub/c.emb", [2], False), ("lib/sub/deep/d.emb", [], False)]),
+        ("import-diamond", "top/m.emb", [("left/x.emb", [2], True), ("right/x.emb", [2], True), ("base/d.emb", [], True)]),
+        ("import-punctuation", "m.emb", [("pkg-one/a-b.v2.emb", [], True), ("Pkg_Two/A.B.emb", [2], True), ("x.y/z.emb", [], True)]),
+        ("import-deep-path", "m.emb", [("a/b/c/d/e/f/leaf.emb", [], True), ("a/b/c/leaf.emb", [0], True)]),
+    ]
+    GUARD_COLLIDING = [("a-b.emb", "a_b.emb"), ("x/y.emb", "x_y.emb"), ("a__b.emb", "a_b.emb"), ("a.b.emb", "a_b.emb"),
+                       ("Common.emb", "common.emb"), ("dir.one/t.emb", "dir/one_t.emb")]
+
+    def make_imports(self):
+        r = self.r
+        self.main = "m.emb"
+        layout = None
+        if self.bad("header-guard-normalised-collision", 0.02):
+            a, b = r.choice(self.GUARD_COLLIDING)
+            layout = ("header-guard-normalised-collision", "m.emb", [(a, [], True), (b, [], True)])
+        elif self.force in [l[0] for l in self.LAYOUTS]:
+            layout = r.choice([l for l in self.LAYOUTS if l[0] == self.force])
+            self.force = None
+        elif r.random() < 0.4:
+            layout = r.choice(self.LAYOUTS)
+        if layout is None:
+            return None
+        feat, main, files = layout
+        self.features.add(feat)
+        self.features.add("import")
+        self.main = main
+        descs = []
+        for i, (path, deps, by_main) in enumerate(files):
+            descs.append(dict(path=path, ns=["imp%d" % i, "ns"], enum="Shared%d" % i, struct="Piece%d" % i, size=3, deps=deps))
+        # sizes: a file's struct embeds the structs of the files it imports (dependencies have larger indexes or are resolved lazily)
+        def size_of(i, seen=()):
+            d = descs[i]
+            return 3 + sum(size_of(j, seen + (i,)) for j in d["deps"] if j not in seen)
+        for i, d in enumerate(descs):
+            d["size"] = size_of(i)
+        out = dict(import_lines=[], enums=[], structs=[])
+        for i, (path, deps, by_main) in enumerate(files):
+            d = descs[i]
+            T = ['[$default byte_order: "LittleEndian"]', '[(cpp) namespace: "%s"]' % "::".join(d["ns"])]
+            T = ['import "%s" as dep%d' % (descs[j]["path"], j) for j in deps] + ([""] if deps else []) + T
+            T += ["enum %s:" % d["enum"], "  SH%d_ONE = 1" % i, "  SH%d_TWO = 2" % i,
+                  "struct %s:" % d["struct"], "  0 [+2]  UInt  word", "  2 [+1]  %s  sh" % d["enum"]]
+            off = 3
+            flds = [dict(name="word", cls="uint"), dict(name="sh", cls="enum")]
+            for j in deps:
+                T.append("  %d [+%d]  dep%d.%s  inner%d" % (off, descs[j]["size"], j, descs[j]["struct"], j))
+                flds.append(dict(name="inner%d" % j, cls="struct"))
+                off += descs[j]["size"]
+            self.files[path] = "\n".join(T) + "\n"
+            ed = dict(name=d["enum"], values=[("SH%d_ONE" % i, 1, None), ("SH%d_TWO" % i, 2, None)], cpp=[d["enum"]], ns=d["ns"], file=path)
+            sd = dict(name=d["struct"], cpp=[d["struct"]], params=[], size=off, fields=flds, nested=False, ns=d["ns"], file=path)
+            self.enums.append(ed)
+            self.structs.append(sd)
+            self.type_names.update([d["enum"], d["struct"]])
+            if by_main:
+                alias = "imp%d" % i
+                out["import_lines"].append((path, alias))
+                out["enums"].append(("%s.%s" % (alias, d["enum"]), ed))
+                out["structs"].append(("%s.%s" % (alias, d["struct"]), sd))
+        return out
 
     def to_dict(self):
         def clean_struct(sd):
-            return dict(name=sd["name"], cpp=sd["cpp"], size=sd["size"], fields=sd["fields"], nested=sd.get("nested", False),
-                        params=[dict(name=p["name"], type=p["type"],
-                                     enum=(p["enum"]["cpp"] if p["enum"] else None),
-                                     enum_first=(p["enum"]["values"][0][0] if p["enum"] else None),
-                                     enum_first_attr=(p["enum"]["values"][0][2] if p["enum"] else None)) for p in sd["params"]])
-        return dict(files=self.files, namespace=self.namespace, features=sorted(self.features), scopes=self.scopes,
-                    structs=[clean_struct(s) for s in self.structs],
-                    enums=[dict(name=e["name"], cpp=e["cpp"], values=[list(v) for v in e["values"]]) for e in self.enums if e.get("cpp")])
+            d = dict(name=sd["name"], cpp=sd["cpp"], size=sd["size"], fields=sd["fields"], nested=sd.get("nested", False),
+                     dynamic=sd.get("dynamic", False),
+                     params=[dict(name=p["name"], type=p["type"],
+                                  enum=(p["enum"]["cpp"] if p["enum"] else None),
+                                  enum_ns=(p["enum"].get("ns") if p["enum"] else None),
+                                  enum_first=(p["enum"]["values"][0][0] if p["enum"] else None),
+                                  enum_first_attr=(p["enum"]["values"][0][2] if p["enum"] else None)) for p in sd["params"]])
+            if sd.get("ns"):
+                d["ns"], d["file"] = sd["ns"], sd["file"]
+            return d
+
+        def clean_enum(e):
+            d = dict(name=e["name"], cpp=e["cpp"], values=[list(v) for v in e["values"]])
+            if e.get("ns"):
+                d["ns"], d["file"] = e["ns"], e["file"]
+            return d
+        return dict(files=self.files, main=self.main, namespace=self.namespace, features=sorted(self.features), scopes=self.scopes,
+                    structs=[clean_struct(s) for s in self.structs], enums=[clean_enum(e) for e in self.enums if e.get("cpp")])
+
+
+def header_guard_py(path):
+    """The documented include-guard rule (whole path): upper case, every character outside [A-Za-z0-9_] becomes '_',
+    a '_' is appended, runs of '_' collapse.  Independent re-implementation, checked against the Coq model each run."""
+    g = re.sub(r"[^A-Za-z0-9_]", "_", (path + ".h").upper()) + "_"
+    return re.sub(r"__+", "_", g)
